@@ -50,6 +50,10 @@ Definition open_key (c : cfg) (w : world) (rel : list bytes) : res (res bytes) :
                    end
   end.
 
+(* keyFileMissing: "there is no such key file" - also when a regular file sits where a directory of the key's path
+   would be (ENOTDIR, e.g. a file named REDKEY) *)
+Definition key_missing (e : errk) : bool := match e with ENOENT | ENOTDIR => true | _ => false end.
+
 (* tryGetRedumpKey: Err ENOENT = "no key applies" (afero.ErrFileNotFound), any other Err = failure *)
 Definition try_key (c : cfg) (w : world) (rel : list bytes) : res bytes :=
   let lst := last_elem rel in
@@ -62,13 +66,14 @@ Definition try_key (c : cfg) (w : world) (rel : list bytes) : res bytes :=
       let cand1 := removelast rel ++ [keyname] in
       match open_key c w cand1 with
       | Ok r => r                                     (* the adjacent key file opened: its verdict is final *)
-      | Err ENOENT =>                                 (* there is none: the REDKEY directory is consulted *)
-          let cand2 := removelast (replace_nth rel idx redkey_dir) ++ [keyname] in
-          match open_key c w cand2 with
-          | Ok r => r
-          | Err e => Err e
-          end
-      | Err e => Err e                                (* it exists but cannot be opened: an error, not "no key" *)
+      | Err e1 =>
+          if key_missing e1 then                      (* there is none: the REDKEY directory is consulted *)
+            let cand2 := removelast (replace_nth rel idx redkey_dir) ++ [keyname] in
+            match open_key c w cand2 with
+            | Ok r => r
+            | Err e2 => if key_missing e2 then Err ENOENT else Err e2
+            end
+          else Err e1                                 (* it exists but cannot be opened: an error, not "no key" *)
       end
   end.
 
